@@ -227,6 +227,12 @@ def scripted_monitor(cmd, o):
             return ("trylock-free-not-0", f"{w[1]} trylock: pthread said 0 (acquired), uv returned `{o}`")
         if c == EBUSY and o != f"ret {-EBUSY}":
             return ("trylock-held-not-ebusy", f"{w[1]} trylock: pthread said EBUSY (held), uv returned `{o}`")
+        if c in (EBUSY, EAGAIN) and o != f"ret {-EBUSY}":
+            return ("trylock-refusal-not-ebusy",
+                    f"{w[1]} trylock: pthread answered {'EBUSY' if c == EBUSY else 'EAGAIN (lock count exhausted)'}: the lock was not "
+                    f"acquired, documented result is UV_EBUSY, uv returned `{o}`")
+        if ow[0] == "ret" and int(ow[1]) not in (0, -EBUSY):
+            return ("trylock-undocumented-code", f"{w[1]} trylock (pthread answered {c}) returned {ow[1]}; documented results are 0 and UV_EBUSY")
         if c != 0 and o == "ret 0":
             return ("try-success-without-lock",
                     f"{w[1]} trylock: pthread_*_try*lock answered {c} (lock NOT granted) but the uv wrapper returned 0 (no exclusion)")
@@ -235,6 +241,8 @@ def scripted_monitor(cmd, o):
         n, r, e = int(w[1]), int(w[2]), int(w[3])
         if r == 0 and ow[:2] != ["ret", "0"]:
             return ("sem-trywait-success-not-0", f"sem_trywait succeeded after {n} EINTR, uv_sem_trywait gave `{o}`")
+        if ow[0] == "ret" and int(ow[1]) not in (0, -EAGAIN):
+            return ("sem-trywait-undocumented-code", f"uv_sem_trywait (sem_trywait: r={r} errno={e} after {n} EINTR) returned {ow[1]}; documented results are 0 and UV_EAGAIN")
         if r != 0 and ow[:2] == ["ret", "0"]:
             return ("try-success-without-lock",
                     f"sem_trywait failed (r={r}, errno={e}: no permit taken) after {n} EINTR but uv_sem_trywait returned 0")
@@ -263,6 +271,8 @@ def scripted_monitor(cmd, o):
             return ("timedwait-etimedout-map", f"pthread_cond_timedwait said ETIMEDOUT, uv returned `{res}`")
         if rc == 0 and res != "ret 0":
             return ("timedwait-0-map", f"pthread_cond_timedwait said 0, uv returned `{res}`")
+        if res.startswith("ret") and int(res.split()[1]) not in (0, -ETIMEDOUT):
+            return ("timedwait-undocumented-code", f"uv_cond_timedwait (pthread answered {rc}) returned {res.split()[1]}; documented results are 0 and UV_ETIMEDOUT")
         if rc != 0 and res == "ret 0":
             return ("timedwait-success-without-wakeup", f"pthread_cond_timedwait answered {rc} (not woken) but uv_cond_timedwait returned 0")
         if rc != ETIMEDOUT and res == f"ret {-ETIMEDOUT}":
